@@ -131,6 +131,7 @@ def run(ctx):
             ctx.log(f"impl {fw} done")
             model = wsrun.run_model(ctx.driver, scripts, fw)
             ctx.log(f"model {fw} done")
+            impl = wsrun.stabilise(scripts, fw, impl, model, res.notes)
             res.evaluations += len(scripts)
             for i, (sc, (cfg, stream, mode, cuts), a, b, j) in enumerate(zip(scripts, meta, impl, model, judge)):
                 res.count(f"recv:{mode}:{fw}")
@@ -169,6 +170,7 @@ def run(ctx):
     for fw in ("twisted", "asyncio"):
         impl = wsrun.run_impl(ssc, fw, nproc=16)
         model = wsrun.run_model(ctx.driver, ssc, fw)
+        impl = wsrun.stabilise(ssc, fw, impl, model, res.notes)
         res.evaluations += len(ssc)
         res.count(f"send:{fw}", len(ssc))
         for sc, a, b in zip(ssc, impl, model):
